@@ -80,10 +80,19 @@ class ChunkSocket:
             self.chunks = [c for c in ch if c]
             self.eof = eof
 
-    def _take(self, n: int) -> bytes:
+    def _take(self, n: int, flags: int = 0) -> bytes:
+        import socket as _socket
+
         self.nreads += 1
         if self.nreads > READ_BUDGET:
             raise Spin()
+        if flags & _socket.MSG_PEEK:
+            # what has arrived so far, left in the buffer (a segment that has not arrived yet cannot be peeked at)
+            if not self.chunks:
+                if not self.eof and not self.in_target:
+                    raise MachineryError("client reads although no reply is outstanding")
+                return b""
+            return self.chunks[0][:n]
         if not self.chunks:
             if self.in_target:
                 self.plan.reads.append(0)
@@ -107,11 +116,11 @@ class ChunkSocket:
         return out
 
     def recv(self, n: int, flags: int = 0) -> bytes:
-        return self._take(n)
+        return self._take(n, flags)
 
     def recv_into(self, buf: t.Any, nbytes: int = 0, flags: int = 0) -> int:
         mv = memoryview(buf)
-        d = self._take(nbytes or len(mv))
+        d = self._take(nbytes or len(mv), flags)
         mv[: len(d)] = d
         return len(d)
 
